@@ -41,6 +41,16 @@ def subsets(run, k, limit_all=6, sample=20):
         yield (1 << k) - 1
         yield 1
         yield 1 << (k - 1)
+        if k > 28 and sample >= 20:
+            # isolated members at every position, and pairs at every distance (runs of zeros of every length)
+            for i in range(k):
+                yield 1 << i
+                yield 1 | (1 << i)
+            for i in range(0, k, 7):
+                for gap in (29, 30, 31, 32, 59, 60, 61, 62, 63, 64, 65):
+                    if i + gap < k:
+                        yield (1 << i) | (1 << (i + gap))
+                        yield (1 << i) | (1 << (i + gap)) | (1 << (k - 1))
         for _ in range(sample):
             d = run.rng.choice((.1, .3, .5, .8))
             yield sum(1 << i for i in range(k) if run.rng.random() < d)
